@@ -536,6 +536,16 @@ class Lib:
                 val = run.ev(e.value, le)
             finally:
                 self.restore_doms(run, guard)
+            if isinstance(val, tuple) and len(val) == 2 and all(isinstance(v, SList) and not isinstance(v.esort, TupleSpec)
+                                                                and z3.is_true(z3.simplify(v.n == 1)) for v in val):
+                # {node: ([t0], [s0(node)]) for node in G.nodes()} : a per-node history (list of times, list of statuses), every node a key
+                from .values import SHistoryTotal
+                tl, sl = val
+                tdict = SDictOfLists(U, tl.esort, dom=z3.K(U, BoolVal(True)), lens=z3.K(U, IntVal(1)), vals=z3.Lambda([x], tl.a),
+                                     default_empty=False, name='hist_t')
+                sdict = SDictOfLists(U, sl.esort, dom=z3.K(U, BoolVal(True)), lens=z3.K(U, IntVal(1)), vals=z3.Lambda([x], sl.a),
+                                     default_empty=False, name='hist_s')
+                return SHistoryTotal(tl.a[0], 'node_history', tdict, sdict)
             if not z3.is_expr(val):
                 raise Unsupported('dict comprehension value at line %d' % e.lineno)
             res = SDict(U, val.sort(), dom=z3.K(U, BoolVal(True)), name='dcomp')
